@@ -21,6 +21,7 @@ type SpecFunc struct {
 	Body   *E // nil: uninterpreted
 	PkgDir string
 	Src    string
+	Opaque bool // proof mode: declare-fun + triggered defining axiom; cex mode: define-fun
 }
 
 type Axiom struct {
@@ -86,7 +87,7 @@ func newSpecSet() *SpecSet {
 	return &SpecSet{Funcs: map[string]*SpecFunc{}, Contracts: map[string]*Contract{}, Props: map[string][]string{}}
 }
 
-var directiveKW = map[string]bool{"pure": true, "axiom": true, "lemma": true, "func": true, "extern": true,
+var directiveKW = map[string]bool{"pure": true, "opaque": true, "axiom": true, "lemma": true, "func": true, "extern": true,
 	"requires": true, "ensures": true, "modifies": true, "loop": true, "use": true, "names": true,
 	"expect_obligations": true, "ghost": true, "at": true, "trusted": true, "property": true, "noreturn": true,
 	"inline": true, "hint": true, "exit": true}
@@ -134,7 +135,7 @@ func readDirectives(path string, prefixed bool) ([]string, []int, error) {
 	return out, lines, sc.Err()
 }
 
-var reSpecFunc = regexp.MustCompile(`^pure\s+func\s+(\w+)\s*\(([^)]*)\)\s*([^=]*?)\s*(?:=\s*(.*))?$`)
+var reSpecFunc = regexp.MustCompile(`^(?:pure|opaque)\s+func\s+(\w+)\s*\(([^)]*)\)\s*([^=]*?)\s*(?:=\s*(.*))?$`)
 var reFuncHdr = regexp.MustCompile(`^(func|extern)\s+(\S+?)(?:\s*\(([^)]*)\)\s*(?:\(([^)]*)\))?)?\s*$`)
 var reLoop = regexp.MustCompile(`^loop\s+(\d+)\s*:\s*(invariant|decreases|hint)\s+(.*)$`)
 var reAtCall = regexp.MustCompile(`^at\s+call\s+(\S+?)#(\d+)\s*:\s*(requires|hint)\s+(.*)$`)
@@ -218,12 +219,12 @@ func (ss *SpecSet) loadSpecFile(path string, prefixed bool, pkgDir string) error
 	}
 	for i, d := range dirs {
 		switch {
-		case strings.HasPrefix(d, "pure func"):
+		case strings.HasPrefix(d, "pure func") || strings.HasPrefix(d, "opaque func"):
 			m := reSpecFunc.FindStringSubmatch(d)
 			if m == nil {
 				return fail(i, "bad pure func: %s", d)
 			}
-			sf := &SpecFunc{Name: m[1], Params: parseParams(m[2]), Ret: strings.TrimSpace(m[3]), PkgDir: pkgDir, Src: d}
+			sf := &SpecFunc{Name: m[1], Params: parseParams(m[2]), Ret: strings.TrimSpace(m[3]), PkgDir: pkgDir, Src: d, Opaque: d[0] == 'o'}
 			if sf.Ret == "" {
 				sf.Ret = "bool"
 			}
